@@ -585,6 +585,11 @@ class Gen:
             self.hist("designators", "depth-%d" % len(ds))
             self.hist("designators", "".join("i" if isinstance(x, int) else "f" for x in ds))
             one, comp = self.gen_one(ct, w, depth + 1, last, nocl)
+            # the same oracle problem (gcc 12 misplaces a following string literal, clang 14 and cproc agree with
+            # the reference) after a designated aggregate whose initialiser has no braces of its own, e.g.
+            # `char o[2][1] = {[0] = {[0] = 1}, [0] = 127, "a"};`
+            if not isinstance(ct, Sc) and not isinstance(one[0][1], L):
+                after_nested = True
             items.append((ds, one[0][1]))
             items += one[1:]
             if not comp:
@@ -1523,8 +1528,9 @@ def run(ck):
         "differential_only_by_first_failing_hypothesis":
             {k.split(":", 1)[1]: v for k, v in sorted(R.counts.items()) if k.startswith("refines_ref_differential_only:")}}
     ck.notes.append("parseinit_refines_ref (cursor machine = C11 6.7.9 reference, proved) covers %d of %d generated "
-                    "(type, initialiser) pairs incl. compound literals (%.1f%%); the others (designators, arrays of "
-                    "unknown size) are compared differentially only" % (nprv, ncls, 100.0 * nprv / max(ncls, 1)))
+                    "(type, initialiser) pairs incl. compound literals (%.1f%%); the others (designated "
+                    "union-member switches = known finding union-member-switch) are compared differentially only"
+                    % (nprv, ncls, 100.0 * nprv / max(ncls, 1)))
     if R.counts.get("hyp_fail_without_union_switch"):
         ck.notes.append("%d objects outside the hypotheses of emitdata_image_ev although no union member was switched"
                         % R.counts["hyp_fail_without_union_switch"])
@@ -1555,20 +1561,23 @@ META = {
              "strings are truncated/zero-extended, relocations keep symbol and addend, the list stays sorted without "
              "partial overlap, later covering initialisers remove earlier ones, the cursor stack never leaves obj[32], "
              "every produced initialiser lies inside the object; and parseinit_refines_ref: for every well-formed type "
-             "and every initialiser without designators (fully braced or brace-elided at any depth, partial, strings, "
-             "struct values, empty braces; objects of known size) the image of the cursor machine's log equals the image "
-             "of the writes of the independent recursive C11 6.7.9 reference Spec/InitRef (simulation proof by induction "
-             "on the reference's recursion; counterexample theorem for designated union-member switches).  Tied to /repo on every run by compiling generated "
+             "and every initialiser of an object of known or unknown (`T a[] = …`) size (positional or with designators of any length incl. "
+             "anonymous members, overriding, braced re-initialisation and continuation after the designated member; "
+             "fully braced or brace-elided at any depth; partial; strings; struct values; empty braces) in which no "
+             "second union member is designated, the image of the cursor machine's log equals the image of the writes "
+             "of the independent recursive C11 6.7.9 reference Spec/InitRef (simulation proof by induction on the "
+             "reference's recursion; counterexample theorem for designated union-member switches).  Tied to /repo on every run by compiling generated "
              "(type, initialiser) objects with the freshly built cproc-qbe for all targets and comparing every data "
              "definition with the model pipeline and with the recursive C11 6.7.9 reference (itself validated against "
              "gcc), by executing automatic objects, and by malformed inputs under ASan."),
     "design_ref": "DESIGN.md section 4, C07",
     "note": ("Trusted: Lean kernel + propext/Classical.choice/Quot.sound; the hand-written model (tied by the "
              "differential run); the Python layout/generator/decoders; gcc as oracle for Spec/InitRef; ilpy for "
-             "automatic objects.  The correspondence between the cursor machine and Spec/InitRef is PROVED for "
-             "initialisers without designators on objects of known size (parseinit_refines_ref, incl. brace elision); for "
-             "designated initialisers and arrays of unknown size it is differential only — evidence field "
-             "refines_ref_coverage gives the fraction of the generated objects inside the proved class (drv_c07 `class`).  "
+             "automatic objects.  The correspondence between the cursor machine and Spec/InitRef is PROVED "
+             "(parseinit_refines_ref / _unb / _class: designators, overriding, brace elision, arrays of unknown size; "
+             "hypothesis: no designated union-member switch, where model and reference really differ — "
+             "parseinit_refines_ref_counterexample); evidence field refines_ref_coverage gives the fraction of the "
+             "generated objects inside the proved class (drv_c07 `class`), the rest is differential only.  "
              "Known findings: union-member-switch (several union members initialised: not laminar, emitdata's own "
              "XXX), auto-zero-after-patch (funcinit)."),
     "technique": "Lean 4 proof (invariants over list/accumulator/stack) + differential correspondence on emitted data, gcc-validated spec, executed IL",
